@@ -9,6 +9,7 @@ functions and an explicit error class; the conditions record what they saw
 and return True - the verdict is taken from the record, so a monitor can
 never change the behaviour it observes. Every contract counts its evaluations.
 """
+import os
 import sys
 
 try:
@@ -33,6 +34,7 @@ class State:
     seq_last = None
     originals = {}
     reached = set()
+    lines = set()
 
 
 def _meta_of(segno, code):
@@ -203,13 +205,24 @@ def start_reach():
     from vmon import core
     prefix = os.path.join(os.path.realpath(core.REPO), 'segno') + os.sep
 
+    linecov = bool(os.environ.get('VERIF_LINECOV'))
+
     def on_start(code, offset):
         fn = code.co_filename
         if fn.startswith(prefix):
             State.reached.add('%s:%s' % (os.path.basename(fn)[:-3], code.co_qualname))
+            if linecov:
+                # optional (tools/linecov.py): which lines of the library do the workloads execute at all?
+                mon.set_local_events(_TOOL, code, mon.events.LINE)
+        return mon.DISABLE
+
+    def on_line(code, line):
+        State.lines.add('%s:%d' % (os.path.basename(code.co_filename)[:-3], line))
         return mon.DISABLE
 
     mon.register_callback(_TOOL, mon.events.PY_START, on_start)
+    if linecov:
+        mon.register_callback(_TOOL, mon.events.LINE, on_line)
     mon.set_events(_TOOL, mon.events.PY_START)
     return True
 
@@ -224,3 +237,13 @@ def stop_reach(rec):
     except ValueError:
         pass
     rec.extra['functions_reached'] = sorted(State.reached)
+
+
+def dump_lines():
+    """VERIF_LINECOV=1: appends the executed library lines of this process to work/linecov/<pid>.txt."""
+    if os.environ.get('VERIF_LINECOV') and State.lines:
+        from vmon import core
+        d = os.path.join(core.WORK, 'linecov')
+        os.makedirs(d, exist_ok=True)
+        with open(os.path.join(d, '%d.txt' % os.getpid()), 'a') as f:
+            f.write('\n'.join(sorted(State.lines)) + '\n')
